@@ -18,6 +18,11 @@ func RunSelfChild(timeout time.Duration, env []string, args ...string) (stdout, 
 	if err != nil {
 		return nil, nil, -1, false, err
 	}
+	return RunBinChild(exe, timeout, env, args...)
+}
+
+// RunBinChild is RunSelfChild with a chosen monitor binary (the GOARCH=386 build of the same monitor).
+func RunBinChild(exe string, timeout time.Duration, env []string, args ...string) (stdout, stderr []byte, exitCode int, timedOut bool, err error) {
 	ctx, cancel := context.WithTimeout(context.Background(), timeout)
 	defer cancel()
 	cmd := exec.CommandContext(ctx, exe, append([]string{"child"}, args...)...)
@@ -53,7 +58,22 @@ func (r *Run) RunVariantChild(variant string, timeout time.Duration, countNT boo
 			env = append(env, tok[4:])
 		}
 	}
-	so, se, code, timedOut, err := RunSelfChild(timeout, env, r.Prop, variant)
+	var so, se []byte
+	var code int
+	var timedOut bool
+	var err error
+	if strings.Contains(variant, "arch386") {
+		// the same monitor built for a 32-bit target (int and uintptr are 32 bits wide, 64-bit atomics
+		// need alignment): ./check builds it for the numeric properties and names it in VCHECK_386_BIN
+		exe := os.Getenv("VCHECK_386_BIN")
+		if exe == "" {
+			r.Inconclusive("variant " + variant + ": the GOARCH=386 build of the monitor is not available (" + os.Getenv("VCHECK_386_ERR") + ")")
+			return
+		}
+		so, se, code, timedOut, err = RunBinChild(exe, timeout, env, r.Prop, variant)
+	} else {
+		so, se, code, timedOut, err = RunSelfChild(timeout, env, r.Prop, variant)
+	}
 	if err != nil {
 		r.Inconclusive(fmt.Sprintf("variant %s: cannot run child: %v", variant, err))
 		return
